@@ -1,4 +1,5 @@
 """C04 — untrusted layer bytes and registry replies cause errors, never a crash or a hang."""
+import concurrent.futures
 import os
 import re
 
@@ -40,18 +41,32 @@ def run(ctx):
     _facts(ctx)
     # fs/layer binary: footers, estargz.Open + Reader walk, memory store + walk, fs/reader (Cache,
     # ReadAt, passthrough), FUSE node walk, Unpack, Build, and the arithmetic ops compared with
-    # the Lean model.  Every input runs in a crash-isolated child process.
+    # the Lean model.  db binary (cmd module): bolt-backed metadata store + fs/reader on top of it.
+    # Every input runs in a crash-isolated child process.
     b = ctx.go_test_binary("fs/layer", "h_layer")
-    if b:
-        ctx.correspond(b, "TestVerifC04", "svdriver_c04", "c04layer", timeout=3000,
-                       env={"VERIF_N": 220 if quick else 3000,
-                            "VERIF_N_ARITH": 2500 if quick else 120000,
-                            "VERIF_N_PF": 600 if quick else 30000})
-    # db binary (cmd module): bolt-backed metadata store + fs/reader on top of it
     d = ctx.go_test_binary("containerd-stargz-grpc/db", "h_db", module_dir="cmd")
+    jobs = []
+    if b:
+        jobs.append((b, "c04layer", {"VERIF_N": 220 if quick else 3000,
+                                     "VERIF_N_ARITH": 2500 if quick else 120000,
+                                     "VERIF_N_PF": 600 if quick else 30000}))
     if d:
-        ctx.correspond(d, "TestVerifC04", "svdriver_c04", "c04db", timeout=3000,
-                       env={"VERIF_N": 60 if quick else 1200})
+        jobs.append((d, "c04db", {"VERIF_N": 60 if quick else 1200}))
+    # the two harnesses run side by side (they only share the machine); their results are then
+    # fed through the ordinary correspondence step one after the other
+    done = {}
+    real_run = ctx.run_harness
+
+    def work(job):
+        binary, tag, env = job
+        done[tag] = real_run(binary, "TestVerifC04", tag, env=env, timeout=3000)
+
+    with concurrent.futures.ThreadPoolExecutor(max_workers=2) as ex:
+        list(ex.map(work, jobs))
+    ctx.run_harness = lambda binary, test, tag, env=None, timeout=1800, cwd=None: done[tag]
+    for binary, tag, env in jobs:
+        ctx.correspond(binary, "TestVerifC04", "svdriver_c04", tag, env=env, timeout=3000)
+    ctx.run_harness = real_run
     return ctx.finish(
         level="proof",
         rule="hand-written scenarios first (one valid blob per flavour gz/zstd/external-TOC, the input of every "
